@@ -366,7 +366,12 @@ def staticdir(section, dir, root='', match='', content_types=None, index='',
     # There's a chance that the branch pulled from the URL might
     # have ".." or similar uplevel attacks in it. Check that the final
     # filename is a child of dir.
-    if not os.path.normpath(filename).startswith(os.path.normpath(dir)):
+    normdir = os.path.normpath(dir)
+    normfile = os.path.normpath(filename)
+    if (
+            normfile != normdir and
+            not normfile.startswith(normdir.rstrip(os.sep) + os.sep)
+    ):
         raise cherrypy.HTTPError(403)  # Forbidden
 
     handled = _attempt(filename, content_types)
